@@ -28,6 +28,8 @@ type c17Case struct {
 	ErrRule bool              `json:"err_rule,omitempty"`
 	Inject  bool              `json:"inject,omitempty"`
 	Names   map[string]string `json:"names,omitempty"` // nonterminal renames (Go keywords, generated type names)
+	// RulePrec: "<nonterminal index>:<alternative index>" -> terminal of a `%prec` marker (C30).
+	RulePrec map[string]int `json:"ruleprec,omitempty"`
 }
 
 var c17BoolOpts = []string{"eventBased", "eventFields", "eventAST", "genSelector", "fixWhitespace", "tokenStream", "cancellable", "cancellableFetch", "recursiveLookaheads", "optimizeTables", "minimizeDFA", "defaultReduce", "writeBison", "debugParser", "tokenLine", "tokenColumn", "tokenLineOffset", "scanBytes", "nonBacktracking", "caseInsensitive", "skipByteOrderMark", "genParser", "genCopyright", "noEmptyRules"}
@@ -141,14 +143,15 @@ func (c *c17Case) render(name string) string {
 	if c.Inject {
 		pre += "%inject space -> Blank;\n"
 	}
-	suffix := func(nt, alt int) string { return "" }
-	if c.ErrRule {
-		suffix = func(nt, alt int) string {
-			if nt == 0 && alt == len(g.NTs[0].Alts)-1 {
-				return "\n  | error"
-			}
-			return ""
+	suffix := func(nt, alt int) string {
+		s := ""
+		if t, ok := c.RulePrec[fmt.Sprintf("%d:%d", nt, alt)]; ok {
+			s = " %prec " + egTerm(t)
 		}
+		if c.ErrRule && nt == 0 && alt == len(g.NTs[0].Alts)-1 {
+			s += "\n  | error"
+		}
+		return s
 	}
 	return g.render(name, opts, c.Space, pre, suffix)
 }
